@@ -34,6 +34,23 @@ CLAIMED = {
     "C20": ("4 C20", "taint of the bond cap chi: reaches sizes only through min()/comparison"),
 }
 
+LEVEL_TEXT = {
+    "C02": "for every function that can restructure or slice a tree (all sites, hence all histories through them) the cached per-node recipes are invalidated as the computed dependency graph requires; value equality itself is numerical and not decided",
+    "C03": "the definitions of flops/size and the slice multiplicity of every reported total are read off the getters by def-use dependence (must-dependence on every path); the arithmetic on runtime sizes is not decided",
+    "C04": "every attribute of a tree is copied safely, running totals are adjusted symmetrically by their owners only, and no slice-dependent figure is first computed after the sliced set changed — for all sites; integer arithmetic is not decided",
+    "C06": "every writer of the sliced-index table keeps output indices first and the slice count is multiplied/divided by the recorded size; stride arithmetic is runtime and not decided",
+    "C07": "forbidden indices are excluded on every path, whatever search() returns passes the unscaled target filter, the cost model slices only indices it knows against its own baseline; equality of predicted and real costs is not decided",
+    "C08": "the returned trial is the arg-min of the recorded scores on every schedule (each reported trial is compared, guarded update, once-per-trial bookkeeping) and recorded costs are refreshed after every in-place post-processing; cost values are not decided",
+    "C13": "cache keys are complete and injective, memoised functions pure, cached callables stateless — for every cache site and call site in the package; numeric equality of cached and uncached results is not decided",
+    "C14": "fingerprints are deterministic, covering and position-preserving, and the lookup/run/overwrite policy holds on every CFG path of the reusable optimizer; that a rebuilt tree equals the searched one is not decided",
+    "C15": "no kill point can leave a partial file under an entry name because every durable write is temp-sibling + close + atomic replace, and a corrupt entry reads as absent; filesystem behaviour is assumed (POSIX rename)",
+    "C16": "per-query state of shared optimizers is keyed by thread or by contraction on every write/read, no result-carrying optimizer is reused, and 'searched' is only reported by the searching thread — the interleaving quantifier is discharged structurally (atomic dict ops assumed)",
+    "C17": "the seed reaches every random-consuming callee of every seeded context over the resolved call graph, no global generator is used, no label set is iterated into an order-sensitive consumer; third-party partitioners are trusted given their seed",
+    "C18": "all simulators use the same survival predicate, appearance table and count bookkeeping (sibling cross-check) and a reported cost covers every contraction step; numerical equality step by step is not decided",
+    "C19": "every combination of per-slice results is exponent-aware, the scale is accumulated additively in log space with a bounded rescale; floating-point range claims are not decided",
+    "C20": "the bond cap reaches sizes only through min()/comparison and the compress-cost estimate charges exactly when compress truncates; tracker arithmetic is not decided",
+}
+
 NA = {
     "C01": "numerical equality with einsum for all networks/trees/options is arithmetic over runtime index strings and "
            "array data; the only structural clause (root axis order sourced from the declared output) is decided under C02-ROOT",
@@ -65,9 +82,8 @@ def main():
             "engine": "sa",
             "level_claimed": {
                 "category": "other",
-                "text": "static analysis of the current /repo sources: decides the structural necessary conditions of "
-                        "the property named in DESIGN.md for every site in the package (all inputs/histories passing "
-                        "through a site), not the runtime behaviour itself",
+                "text": "static analysis of the current /repo sources (structural necessary conditions, decided for "
+                        "every site in the package and hence for all inputs/histories through it): " + LEVEL_TEXT[pid],
                 "design_ref": f"DESIGN.md section {ref}",
             },
             "level_note": "trusted base: Python ast of /repo/cotengra (41 modules), the checker's call resolution and "
